@@ -260,7 +260,7 @@ spif_ustr_init_from_fd(spif_ustr_t self, int fd)
     self->len = 0;
     self->s = (spif_charptr_t) MALLOC(self->size);
 
-    for (p = self->s; ((n = read(fd, p, buff_inc)) > 0) || (errno == EINTR);) {
+    for (p = self->s; ((n = read(fd, p, buff_inc)) > 0) || ((n < 0) && (errno == EINTR));) {
         if (n > 0) {
             self->size += n;
             self->s = (spif_charptr_t) REALLOC(self->s, self->size);
